@@ -1139,7 +1139,7 @@ func bubbleGoroutines(withStacks bool) goroutineCounts {
 func (w *World) snapshot(phase string) *Snapshot {
 	gc := bubbleGoroutines(true)
 	w.mu.Lock()
-	sn := &Snapshot{Step: w.step, Phase: phase, LibGoroutines: gc.lib, NowNs: time.Since(epoch()).Nanoseconds()}
+	sn := &Snapshot{Step: w.step, Phase: phase, LibGoroutines: gc.lib, NowNs: time.Since(epoch()).Nanoseconds(), Parked: len(w.parked)}
 	if phase == "ended" || phase == "final" || gc.lib > 8 {
 		for _, s := range gc.stacks {
 			if len(s) > 1500 {
